@@ -48,4 +48,33 @@ var props = []propSpec{
 		Assumptions: []string{"within |x| <= 2^53 an integer converts to float64 exactly, so fp comparison of float64(value) with the bound is the comparison of the mathematical values"},
 		Outside:     []string{"values or bounds beyond ±2^53", "NaN bounds"},
 	},
+	{ID: "C01",
+		Harnesses: []harnessSpec{
+			{Name: "HarnessC01Type", Bounds: "type keyword: 1 type, 2 types, type+enum[1 scalar] x instance in {null, symbolic bool, fully symbolic float64 |x|<=2^53, 4 strings, [], {}, [pick]}"},
+			{Name: "HarnessC01Numeric", Bounds: "minimum/maximum/exclusive* with fully symbolic float64 bounds and instance (|x|<=2^53); type absent/number with both bounds, type integer without bounds", BoundsThorough: "as quick plus type integer with both bounds"},
+			{Name: "HarnessC01MultipleOfEnum", Bounds: "multipleOf in {0.5,1,2,3}, numeric enum of 1-2 values, instance from 10 picked numbers or a scalar"},
+			{Name: "HarnessC01String", Bounds: "type string?, min/maxLength picks 0..3, pattern in {none,^a,b$}, format date through the registry stub (known and valid symbolic); instances: 5 strings incl. non-ASCII, or a scalar"},
+			{Name: "HarnessC01Array", Bounds: "items none / single L3 / tuple of 1-2 L3; additionalItems absent/true/false/L3; min/maxItems picks 0..3; uniqueItems; arrays of 0-3 elements from {pick number, \"a\"}", BoundsThorough: "tuples up to 3, arrays of 0-4 elements from {pick number, \"a\", null}, type keyword free"},
+			{Name: "HarnessC01Object", Bounds: "properties{a:L3} + one of 12 features (second property, patternProperties, additionalProperties true/false/L3, required, min/maxProperties picks, dependencies property/schema, type); members a, ab, b, c with forked presence", BoundsThorough: "two features combined"},
+			{Name: "HarnessC01Composition", Bounds: "allOf/anyOf/oneOf of 1-2 leaves of L6 (15 variants), not L6; instance scalar / [] / {}", BoundsThorough: "1-3 leaves"},
+			{Name: "HarnessC01Enum", Bounds: "enum of 1-2 values from scalars, [num], {a:num}; instance likewise"},
+		},
+		Assumptions: []string{
+			"format registry stub: ContainsName/Validates are the uninterpreted predicates knownFmt(name), fmtOK(name, s) shared with the reference evaluator; no registry knows the empty format name",
+			"regexp: Go's regexp run natively on concrete patterns and concrete subjects",
+			"reference evaluator ref_draft4.go (validated against the JSON-Schema-Test-Suite labels in /repo/fixtures)",
+			"structural numbers are finite-domain picks; F1/F2 numbers are fully symbolic float64 with |x| <= 2^53",
+		},
+		Outside: []string{"$ref / definitions / remote references (the expander is not encodable)", "real format checkers and regexp semantics on symbolic strings", "Go-typed instances (C13/C16)", "nesting depth > 2", "nullable (Swagger extension)", "the 15-significant-digit restriction is not expressible in FP theory: violations in the near-integer region are one identified finding"},
+	},
+	{ID: "C06",
+		Harnesses: []harnessSpec{
+			{Name: "HarnessC06Degenerate", Bounds: "22 degenerate schema shapes (empty lists, negative/huge bounds, multipleOf<=0, invalid patterns, unknown types/formats, format next to every type, additionalItems without tuple items, nil-valued SchemaOrBool, duplicate required) x 14 instance shapes (all JSON kinds, json.Number valid/decimal/garbage/overflow, int64, duplicates) x SwaggerSchema, SkipSchemata, recycling options"},
+			{Name: "HarnessC06Nested", Bounds: "the same degenerate shapes one level down (properties, items, allOf, not, additionalProperties) x nested instances"},
+			{Name: "HarnessC01Array", Bounds: "as in C01 (index arithmetic for tuple / additional items)"},
+			{Name: "HarnessC01Composition", Bounds: "as in C01 (reflection on possibly nil data)", ThoroughOnly: true},
+		},
+		Assumptions: []string{"termination is bounded: every path finishes within the step budget (3e6 SSA instructions); recursion depth is bounded by schema depth because $ref is absent"},
+		Outside:     []string{"$ref cycles", "nesting depth > 2", "struct-typed instances (swag.ToDynamicJSON)"},
+	},
 }
